@@ -359,44 +359,57 @@ def div_2exp (dst src : Nat) (n : Nat) (h : Heap) : Heap :=
 
 /-! ### mpq/set_d.c (64-bit limbs: LIMBS_PER_DOUBLE = 2) -/
 
-/-- `__gmp_extract_double` (extract-dbl.c) for a positive finite double given by its biased exponent
-    field `e` (0..2046) and 52-bit fraction `f`: returns (tp as a 2-limb number, exp) with
-    `d = tp * B^(exp-2)`. -/
-def extractDouble (e f : Nat) : Nat × Int :=
-  -- extract-dbl.c: manl = 1<<63 | manh<<43 | manl<<11 ; denormals are shifted up until the top bit is set
+/-- the denormal loop of extract-dbl.c: shift `manl` left until its top bit is set -/
+def normDenorm (fuel : Nat) (manl : Nat) (exp : Int) : Nat × Int :=
+  match fuel with
+  | 0 => (manl, exp)
+  | fuel + 1 =>
+    let manl := (manl * 2) % B
+    let exp := exp - 1
+    if manl / 2 ^ 63 = 0 then normDenorm fuel manl exp else (manl, exp)
+
+/-- first half of `__gmp_extract_double` (extract-dbl.c, IEEE branch, 64-bit limb): the 64-bit
+    mantissa `manl` with its top bit set and the biased exponent, for a positive finite double with
+    exponent field `e` and fraction `f`. -/
+def extractMant (e f : Nat) : Nat × Int :=
+  -- manl = 1<<63 | manh<<43 | manl<<11
   let manl0 := 2 ^ 63 + f * 2 ^ 11
-  let rec norm (fuel : Nat) (manl : Nat) (exp : Int) : Nat × Int :=
-    match fuel with
-    | 0 => (manl, exp)
-    | fuel + 1 =>
-      let manl := (manl * 2) % B
-      let exp := exp - 1
-      if manl / 2 ^ 63 = 0 then norm fuel manl exp else (manl, exp)
-  let (manl, exp) : Nat × Int := if e = 0 then norm 64 manl0 1 else (manl0, (e : Int))
-  let exp := exp - 1022
-  let sc := ((exp + 4096) % 64).toNat
+  if e = 0 then normDenorm 64 manl0 1 else (manl0, (e : Int))
+
+/-- second half of `__gmp_extract_double`: remove the bias and split `manl` over the two limbs
+    `rp[1], rp[0]` at a limb boundary; returns (rp as a 2-limb number, exp) with
+    `d = rp * B^(exp-2)`. -/
+def extractSplit (manl : Nat) (exp : Int) : Nat × Int :=
+  let exp := exp - 1022                                    -- remove IEEE bias
+  let sc := ((exp + 4096) % 64).toNat                      -- sc = (unsigned) (exp + 64*64) % 64
   let exp := (exp + 4096) / 64 - 64 + 1
-  if sc ≠ 0 then ((manl / 2 ^ (64 - sc)) * B + (manl * 2 ^ sc) % B, exp)
-  else (manl * B, exp - 1)
+  if sc ≠ 0 then ((manl / 2 ^ (64 - sc)) * B + (manl * 2 ^ sc) % B, exp)   -- rp[1] = manl >> (64-sc); rp[0] = manl << sc
+  else (manl * B, exp - 1)                                 -- rp[1] = manl; rp[0] = 0; exp--
+
+/-- `__gmp_extract_double` (extract-dbl.c) for a positive finite double -/
+def extractDouble (e f : Nat) : Nat × Int :=
+  extractSplit (extractMant e f).1 (extractMant e f).2
 
 /-- `mpq_set_d` (set_d.c:36-160) for a finite double with sign bit `s`, exponent field `e < 2047`,
     fraction `f`; NaN/Inf (`e = 2047`) raise `__gmp_invalid_operation` and are rejected by the caller. -/
 def setDVal (s : Bool) (e f : Nat) : Q :=
   if e = 0 ∧ f = 0 then ⟨0, 1⟩ else                        -- set_d.c:67-73 (exp = 0 <= 1)
-  let (tp, exp) := extractDouble e f                       -- :53
+  let tp := (extractDouble e f).1                          -- :53
+  let exp := (extractDouble e f).2
   let tp0 := tp % B
   let tp1 := tp / B
   if exp ≤ 1 then                                          -- :64
-    let (np, nn) : Nat × Int := if tp0 = 0 then (tp1, 1) else (tp, 2)   -- :97-100
+    let np := if tp0 = 0 then tp1 else tp                  -- :97-100
+    let nn : Int := if tp0 = 0 then 1 else 2
     let dn : Int := -exp + nn + 1                          -- :75, :102
     let dp := B ^ (dn - 1).toNat                           -- :104-107
     let c := ctz ((np % B) ||| (dp % B))                   -- :108
     let np := np / 2 ^ c                                   -- :111
     let dp := dp / 2 ^ c                                   -- :113
-    ⟨if s then -(np : Int) else (np : Int), (dp : Int)⟩   -- :116-117
+    ⟨if s then -(np : Int) else (np : Int), (dp : Int)⟩    -- :116-117
   else
     let np := tp * B ^ (exp - 2).toNat                     -- :121-133 (nn = exp limbs, low ones zero)
-    ⟨if s then -(np : Int) else (np : Int), 1⟩         -- :155-158
+    ⟨if s then -(np : Int) else (np : Int), 1⟩             -- :155-158
 
 def set_d (dest : Nat) (s : Bool) (e f : Nat) (h : Heap) : Heap :=
   let q := setDVal s e f
